@@ -451,7 +451,7 @@ class CooperativeAwarenessMessage:
         if "track" in tpv.keys():
             self.cam["cam"]["camParameters"]["highFrequencyContainer"][1]["heading"][
                 "headingValue"
-            ] = int(tpv["track"] * 10)
+            ] = int(tpv["track"] * 10) % 3600  # 360 degrees is north (0); 3600 shall not be used
         if "epd" in tpv.keys():
             self.cam["cam"]["camParameters"]["highFrequencyContainer"][1]["heading"][
                 "headingConfidence"
